@@ -10,7 +10,9 @@ RULE = ("generated label trees up to depth 4 with local names repeated under dif
         "implementation and the Lean model are run on every program, and on a twin in which one address-free global constant "
         "declaration is moved to another position with the same enclosing symbol. Programs in which a constant stands between a label "
         "and a later relative declaration/reference are evaluated under both readings ('last label' / 'last symbol', finding F16). "
-        "Non-trivial = distinct programs with at least one relative reference.")
+        "Also: dependency chains of 2-14 address-free constants declared forwards, backwards and shuffled, read by data and by an `#if` "
+        "condition (the order must not matter); nested declarations and references inside selected `#if`/`#elif`/`#else` arms against the "
+        "flattened program. Non-trivial = distinct programs with at least one relative reference.")
 
 HEAD = """#ruledef
 {
@@ -278,6 +280,76 @@ def expected(lines, labels_only):
     return ("ok", bits, syms)
 
 
+def gen_chain(rng):
+    """address-free constants forming a dependency chain, declared in a random order (forwards, backwards, shuffled), read by
+    data, by an `#if` condition and by a bank definition: (program, expected hex) - the order must not matter"""
+    n = rng.randrange(2, 15)
+    base = rng.randrange(0, 40)
+    decls = ["c%d = c%d + 1" % (i, i + 1) for i in range(n - 1)] + ["c%d = %d" % (n - 1, base)]
+    how = rng.choice(["fwd", "rev", "shuffle", "rev"])
+    if how == "fwd":
+        decls.reverse()
+    elif how == "shuffle":
+        rng.shuffle(decls)
+    top = base + n - 1
+    k = rng.randrange(n)
+    use = ["#d8 c0", "#d8 c%d" % k]
+    hx = "%02x%02x" % (top, base + n - 1 - k)
+    if rng.random() < 0.6:
+        cond = rng.choice(["c0 == %d" % top, "c0 != %d" % top, "c%d > %d" % (k, base + n - 1 - k - 1)])
+        val = {"c0 == %d" % top: True, "c0 != %d" % top: False}.get(cond, True)
+        use += ["#if %s" % cond, "{", "    #d8 0xaa", "}", "#else", "{", "    #d8 0xbb", "}"]
+        hx += "aa" if val else "bb"
+    parts = [decls, use]
+    if rng.random() < 0.5:
+        parts.reverse()
+        # (data first, declarations after)
+        text = "\n".join(parts[0] + parts[1]) + "\n"
+    else:
+        text = "\n".join(parts[0] + parts[1]) + "\n"
+    return text, hx, how, n
+
+
+def gen_if_scoped(rng):
+    """nested declarations and references inside taken `#if` arms (global labels stay outside the arms: finding F15 is about
+    those): (program, the same program with each conditional replaced by the arm it selects)"""
+    a, b = [HEAD, "T = true", "F = 1 == 2"], [HEAD, "T = true", "F = 1 == 2"]
+    ng = rng.randrange(2, 5)
+    for g in range(ng):
+        for t in (a, b):
+            t.append("g%d:" % g)
+            t.append("    emit g%d" % g)
+        for j in range(rng.randrange(0, 4)):
+            inner = [".l%d:" % j, "    emit .l%d" % j]
+            if rng.random() < 0.4:
+                inner += ["..d%d:" % j, "    emit ..d%d" % j, "    emit .l%d.d%d" % (j, j)]
+            dead = ["    emit 0x%x" % rng.randrange(256)]
+            r = rng.random()
+            if r < 0.35:
+                a += ["#if T", "{"] + inner + ["}"]; b += inner
+            elif r < 0.55:
+                a += ["#if F", "{"] + dead + ["}", "#else", "{"] + inner + ["}"]; b += inner
+            elif r < 0.7:
+                a += ["#if F", "{"] + dead + ["}", "#elif T", "{"] + inner + ["}"]; b += inner
+            else:
+                a += inner; b += inner
+            if rng.random() < 0.5:
+                for t in (a, b):
+                    t.append("    emit g%d.l%d" % (g, j))
+        for t in (a, b):
+            if rng.random() < 0.5:
+                t.append(".tail:")
+                t.append("    emit .tail")
+            break
+        if a[-1].startswith("    emit .tail") and not b[-1].startswith("    emit .tail"):
+            b += a[-2:]
+    for g in range(ng):
+        if rng.random() < 0.5:
+            for t in (a, b):
+                t.append("    emit g%d" % g)
+    return "\n".join(a) + "\n", "\n".join(b) + "\n"
+
+
 def move_constant(rng, lines):
     """move one address-free global constant to another position with the same enclosing symbol (same context
     under both readings): i.e. next to another global-level position that is not followed by relative items"""
@@ -363,6 +435,42 @@ def run(chk):
                     chk.violate("moving an address-free constant declaration changes the result", {"program": t, "before": prev_text}, str(pr)[:300], il[:300])
         if kind == "base":
             prev, prev_lines, prev_text = r, lines, t
+    # ---- dependency chains of address-free constants in every order of declaration
+    ch = [gen_chain(rng) for _ in range(2000 if thorough else 250)]
+    cops = [fw.asm_op([("main.asm", t)]) for t, _, _, _ in ch]
+    cimpl = fw.run_oracle_resilient(cops, "c15c")
+    cmodel = fw.run_model(cops, "c15c", timeout=3000)
+    for (t, hx, how, nn), a, m in zip(ch, cimpl, cmodel):
+        chk.evaluations += 1
+        il = fw.asm_line(a)
+        if il != m:
+            chk.disagree(t[-500:], m[:250], il[:250])
+        r = parse(il)
+        chk.nontriv(t)
+        chk.count("chain_%s_%s" % (how, r[0]))
+        want = "".join(format(int(c, 16), "04b") for c in hx)
+        if r[0] != "ok" or r[1] != want:
+            chk.violate("the order in which constants are declared changes the result", {"program": t, "order": how, "length": nn}, "ok " + want, il[:300])
+    # ---- nested declarations inside taken #if arms vs the flattened program
+    sc = [gen_if_scoped(rng) for _ in range(2000 if thorough else 250)]
+    sops = []
+    for x, y in sc:
+        sops += [fw.asm_op([("main.asm", x)]), fw.asm_op([("main.asm", y)])]
+    simpl = fw.run_oracle_resilient(sops, "c15s")
+    smodel = fw.run_model(sops, "c15s", timeout=3000)
+    for i, (x, y) in enumerate(sc):
+        chk.evaluations += 2
+        la, lb = fw.asm_line(simpl[2 * i]), fw.asm_line(simpl[2 * i + 1])
+        for il, m, t in ((la, smodel[2 * i], x), (lb, smodel[2 * i + 1], y)):
+            if il != m:
+                chk.disagree(t[-500:], m[:250], il[:250])
+        ra, rb = parse(la), parse(lb)
+        chk.nontriv(x)
+        chk.count("if_scoped_%s" % ra[0])
+        if rb[0] != "ok" or ra[0] != "ok" or ra[1] != rb[1] or ra[2] != rb[2]:
+            chk.violate("a nested declaration inside a selected #if arm does not get the scope it has in the flattened program",
+                        {"program": x, "flattened": y}, lb[:300], la[:300])
+    chk.traces += len(cops) + len(sops)
     # recorded findings: replay the witnesses
     for k in known.values():
         w = k.get("replay", {})
